@@ -269,7 +269,8 @@ def hostile_cli(rng, acc_words):
     elif k == 8:
         argv = ["hash", "typeddata", via(mutate_bytes(rng, seed_td(rng).encode()), "td.json")]
     elif k == 9:
-        data = rng.choice([b"", b"0x", b"0", b"0x0", b"zz", b"0x" + b"ab" * 70000, b"\xff\xfe", b"0x\xc3\xa9", b" \n\t", b"0x 0 0", mutate_bytes(rng, b"0x" + rand_bytes(rng, 20).hex().encode())])
+        data = rng.choice([b"", b"0x", b"0", b"0x0", b"zz", b"0x" + b"ab" * 70000, b"\xff\xfe", b"0x\xc3\xa9", b" \n\t", b"0x 0 0", "1\u00e9".encode(), "a\u20ac0".encode(), "\u20ac".encode(), "0\U0001f600".encode(), "\u00e9\u00e9".encode(),
+                           multibyte_hexlike(rng, rng.choice([2, 3, 4, 5, 8])).encode(), multibyte_hexlike(rng, rng.choice([2, 3, 4, 5, 8]))[2:].encode() or b"\xc3\xa9", mutate_bytes(rng, b"0x" + rand_bytes(rng, 20).hex().encode())])
         argv = ["hex", rng.choice(["decode", "decode", "encode"]), via(data, "h")]
     elif k == 10:
         p = rng.choice(["", "0x", "0", "x", "0xg", "0xA", "0xa", "0xAb", "0xF", "0x0f", "0xfF", "1", "0xé", "0x-", "0X1", "0x1 ", " 0x1", "0x" + "a" * 41 + "g"])
